@@ -51,6 +51,9 @@ def norm_val(sig, v):
         import struct
         return 'd:' + struct.pack('<d', v).hex()
     if c == 'a':
+        if sig[1:2] == 'y' and len(v) > 256:
+            import zlib
+            return '#ay:%d:%08x' % (len(v), zlib.crc32(bytes(v)))       # large byte arrays: length and checksum
         return [norm_val(sig[1:], x) for x in v]
     if c in '({':
         return [norm_val(s, x) for s, x in zip(split_sig(sig[1:-1]), v)]
@@ -85,10 +88,10 @@ def _norm_msg(m, fdtokens=()):
 
 def _human(m):
     f = m.fields
-    return '%s %s>%s %s.%s %s rs=%s %r' % ({1: 'call', 2: 'ret', 3: 'err', 4: 'sig'}.get(m.type, m.type),
+    return '%s %s>%s %s.%s %s rs=%s %s' % ({1: 'call', 2: 'ret', 3: 'err', 4: 'sig'}.get(m.type, m.type),
                                           f.get(F_SENDER), f.get(F_DESTINATION), f.get(F_INTERFACE, ''),
                                           f.get(F_MEMBER, ''), f.get(F_ERROR_NAME, ''), f.get(F_REPLY_SERIAL, ''),
-                                          m.body if m.type != 3 else '')
+                                          (repr(m.body)[:200]) if m.type != 3 else '')
 
 
 class SlotState:
@@ -98,6 +101,7 @@ class SlotState:
         self.joined = []
         self.closed = True     # no connection
         self.eof = False
+        self.stalled = False   # the driver does not read this client for the time being
         self.mute = False      # wrote an incomplete message: whatever it writes now only completes that message
 
 
@@ -111,6 +115,8 @@ class Driver:
         if 'replyTimeoutMs' in self.cfg:
             limits['reply_timeout'] = self.cfg['replyTimeoutMs']
         kw = dict(daemon_kw or {})
+        if 'maxOutgoing' in self.cfg:
+            limits['max_outgoing_bytes'] = self.cfg['maxOutgoing']
         if self.cfg['maxMsgSize'] != 33554432:
             limits['max_message_size'] = self.cfg['maxMsgSize']
         if self.cfg.get('maxMsgFds', 16) != 16:
@@ -189,6 +195,7 @@ class Driver:
             st.closed = False
             st.eof = False
             st.mute = False
+            st.stalled = False
             st.monitor = False
             st.joined = []
             return {'k': 'connect', 'uid': op.get('uid', 0), 'fdcap': bool(st.c.fd_ok)}
@@ -411,11 +418,25 @@ class Driver:
         nfd_before = self.daemon.nfds()
         # unauthenticated strangers: junk, half handshakes, connect-and-go (no part of the bus state)
         pre = self.strangers(rnd.get('pre', []))
+        # clients that stop being read / are read again do so before anything is written in this round
+        for s in sorted(ops_in):
+            st = self.slots[s]
+            for op in ops_in[s]:
+                if op['k'] == 'stall' and not st.closed and not st.eof:
+                    st.stalled = True
+                    rec_ops[s].append({'k': 'stall'})
+                elif op['k'] == 'unstall' and st.stalled and not st.closed:
+                    self.drain(s, obs[s], quiet=0.15)
+                    st.stalled = False
+                    rec_ops[s].append({'k': 'unstall'})
+        stalled_now = [s for s in sorted(self.slots) if self.slots[s].stalled and not self.slots[s].closed]
         # phase 1a: everybody writes
         for s in order:
             st = self.slots[s]
             wrote = False
             for op in ops_in.get(s, []):
+                if op['k'] in ('stall', 'unstall'):
+                    continue
                 if op['k'] == 'close':
                     if not st.closed and not st.eof:
                         closing.append(s)
@@ -434,7 +455,7 @@ class Driver:
                     hello_idx.setdefault(s, []).append(len(rec_ops[s]))
                 rec_ops[s].append(r)
                 wrote = wrote or r['k'] not in ('connect', 'connect_failed')
-            if st.closed or st.eof or st.monitor or st.mute:
+            if st.closed or st.eof or st.monitor or st.mute or st.stalled:
                 continue
             if s in became:
                 p1[s] = became[s]
@@ -482,7 +503,7 @@ class Driver:
         sync = []
         for s in sorted(self.slots):
             st = self.slots[s]
-            if st.closed or st.eof or st.monitor or st.mute:
+            if st.closed or st.eof or st.monitor or st.mute or st.stalled:
                 continue
             ser = st.c.call(BUSNAME, BUSPATH, 'org.freedesktop.DBus.Peer', 'Ping')
             ok = self.read_until(s, ser, obs[s])
@@ -532,6 +553,8 @@ class Driver:
                 'obs': [obs[s] for s in sorted(self.slots)], 'eof': eof, 'stall': self.stall}
         if pre:
             line['pre'] = pre
+        if stalled_now:
+            line['stalled'] = stalled_now
         self.lines.append(line)
         return line
 
